@@ -193,6 +193,17 @@ def ref_frame(P, f, flags, opts):
     st = spec_stages(flags, ctype, present)
     if st is None:
         return ('err', 'flags')
+    return ref_apply(P, f, st, opts)
+
+
+def ref_apply(P, f, st, opts):
+    """the stages `st` applied to frame f (parameters discovered most specific first)"""
+    T = P.get('T') or {}
+    ctype = color_type(P['photometric'])
+    voi_user = opts.get('voi_user')
+    rw_maps = discover(T, 'rwvm', f)
+    resc = discover(T, 'rescale', f)
+    win = discover(T, 'window', f)
     frame = np.asarray(P['frames'][f])
     info = {'stages': st, 'tolerated_refusal': None, 'exact': True, 'kind': []}
     if ctype != MONO:
@@ -205,6 +216,8 @@ def ref_frame(P, f, flags, opts):
             out = [int(x) for x in frame.reshape(-1)] if ctype == PALETTE else \
                 [[int(v) for v in px] for px in frame.reshape(-1, 3)]
         if st['icc']:
+            if ctype == PALETTE and not st['palette']:
+                return ('err', 'icc on indices')
             info['kind'].append('icc')
             out = [list(reversed(px)) for px in out]          # the test profile exchanges R and B
         info['color_out'] = ctype == COLOR or st['palette']
@@ -272,7 +285,9 @@ def ref_frame(P, f, flags, opts):
                 return ('undefined', 'VOI LUT on non-integer modality output', info)
             if mlut is None and (slope.denominator != 1 or icpt.denominator != 1):
                 info['tolerated_refusal'] = 'voilut-noninteger-rescale'
-            elif mlut is None and ((F(vlut['first']) - icpt) / slope).denominator != 1:
+            elif mlut is None and ((F(vlut['first']) + (len(d) - 1 if slope < 0 else 0) - icpt) / slope).denominator != 1:
+                # the table folded onto stored values needs its first (for a negative slope: last) entry to sit
+                # on an integer stored value; the library refuses otherwise (no wrong value is returned)
                 info['tolerated_refusal'] = 'voilut-fold-first-not-divisible'
             out = [(Fraction(lut_lookup(d, vlut['first'], int(x))) - vmin) / (vmax - vmin) * (hi - lo) + lo for x in xs]
             rng = vmax - vmin
@@ -400,6 +415,11 @@ def dtype_refusal_ok(P, info, want, dtype):
         return None if np.can_cast(src, dt, 'safe') else 'unsafe cast of table'
     aff = info.get('affine')
     if aff is None:
+        # no transform: the stored values themselves must fit
+        ii = np.iinfo(dt)
+        flat = [v for w in want for v in (w if isinstance(w, list) else [w])]
+        if any(v < ii.min or v > ii.max for v in flat):
+            return 'stored value outside the integer output type'
         return None
     a, b = aff
     if a.denominator != 1 or b.denominator != 1:
@@ -610,15 +630,28 @@ def gen_pipeline_case(r, idx):
 
 def gen_flags(r, P):
     """mostly flag tuples that can succeed, some arbitrary ones"""
-    if r.random() < 0.25:
+    if r.random() < 0.08:
         return {'rw': r.choice(TRI), 'mod': r.choice(TRI), 'voi': r.choice(TRI), 'pal': r.choice(TRI),
                 'icc': r.choice(TRI), 'pres': r.random() < 0.7}
-    fl = {'rw': r.choice([None, None, False, True]), 'mod': r.choice([None, None, True]),
-          'voi': r.choice([None, None, True, False]), 'pal': r.choice([None, None, True]) if P['photometric'] == 'PALETTE COLOR' else None,
-          'icc': r.choice([None, None, False]), 'pres': r.random() < 0.75}
-    if fl['rw'] is True:
-        fl['mod'] = None
-        fl['voi'] = r.choice([None, False])
+    T = P['T']
+    mono = P['photometric'].startswith('MONO')
+    has = {'rw': bool(T.get('rwvm')), 'mod': bool(T.get('rescale') or T.get('mod_lut')),
+           'voi': bool(T.get('window') or T.get('voi_luts')), 'pal': bool(T.get('palette')), 'icc': bool(T.get('icc'))}
+
+    def tri(k, p_true=0.3):
+        u = r.random()
+        if u < p_true and (has[k] or r.random() < 0.1):
+            return True
+        return None if u < 0.85 else False
+    fl = {'rw': tri('rw') if mono else None, 'mod': tri('mod') if mono else None,
+          'voi': (tri('voi', 0.4) if r.random() < 0.85 else False) if mono else r.choice([None, False]),
+          'pal': tri('pal'), 'icc': tri('icc'), 'pres': r.random() < 0.75}
+    if fl['rw'] is True and fl['mod'] is True:
+        fl[r.choice(['rw', 'mod'])] = None
+    if fl['mod'] is False and fl['voi'] is not False and r.random() < 0.9:
+        fl['voi'] = False
+    if fl['pal'] is False and fl['icc'] is not False and r.random() < 0.9:
+        fl['icc'] = False
     return fl
 
 
@@ -764,11 +797,17 @@ def stream_pipeline(ctx, reqs, pending):
 
 def run(ctx):
     reqs, pending = [], []
+    stream_flags(ctx, reqs, pending)
     stream_pipeline(ctx, reqs, pending)
 
 
 def replay(ctx, case):
     sub = type(ctx)(ctx.prop, ctx.tier, ctx.seed, 1, ctx.driver)
+    if case.get('stream') == 'flags':
+        P = flag_image(case['ctype'], case['present'])
+        im, _ = build(P)
+        res = call(im.get_frame, 1, **flag_kwargs(case['flags']))
+        check_call(sub, case, P, 0, case['flags'], {}, res, 'flags', hist=False)
     if case.get('stream') == 'pipe':
         P, flags, opts = case['P'], case['flags'], case['opts']
         im, _ = build(P)
@@ -778,3 +817,105 @@ def replay(ctx, case):
             res = call(im.get_frame, f + 1, **kw)
             check_call(sub, case, P, f, flags, opts, res, 'get_frame', hist=False)
     return sub.failures[:3] or None
+
+
+# ---------------------------------------------------------------------------- flag table
+FLAG_RWVM = {'label': 'A', 'unit': ['1', 'UCUM', 'no units'], 'first': 0, 'last': 255, 'slope': '2', 'intercept': '1000'}
+PRES_KEYS = ('rwvm', 'modality', 'voi', 'icc', 'inverse')
+
+
+def flag_image(ctype, pres):
+    """the image of one (colour type, presence pattern) row of the flag table; every stage changes the output visibly"""
+    T = {}
+    if pres['rwvm']:
+        T['rwvm'] = [{'place': 'image', 'vals': [[FLAG_RWVM]]}]
+    if pres['modality']:
+        T['rescale'] = [{'place': 'image', 'vals': [['3', '7']]}]
+    if pres['voi']:
+        T['window'] = [{'place': 'image', 'vals': [{'c': ['20'], 'w': ['64'], 'fn': 'LINEAR_EXACT'}]}]
+    if pres['inverse']:
+        T['pres_shape'] = 'INVERSE'
+    if pres['icc']:
+        T['icc'] = True
+    P = {'bits': 8, 'signed': False, 'bits_stored': 8, 'T': T}
+    if ctype == MONO:
+        P.update(photometric='MONOCHROME2', frames=[[[3, 9]]])
+    elif ctype == PALETTE:
+        P.update(photometric='PALETTE COLOR', frames=[[[3, 9]]])
+        T['palette'] = {'first': 2, 'bits': 8, 'data': [[10 * k + 1, 100 + k, 200 - 7 * k] for k in range(12)]}
+    else:
+        P.update(photometric='RGB', frames=[[[[200, 10, 30], [0, 255, 7]]]])
+    return P
+
+
+def all_flag_tuples():
+    for rw, mod, voi, pal, icc in itertools.product(TRI, repeat=5):
+        for pres in (True, False):
+            yield {'rw': rw, 'mod': mod, 'voi': voi, 'pal': pal, 'icc': icc, 'pres': pres}
+
+
+def observe_stages(P, res):
+    """which stage set reproduces the implementation's output (None if no candidate does)"""
+    if res[0] != 'ok':
+        return 'err'
+    ctype = color_type(P['photometric'])
+    cands = []
+    if ctype == MONO:
+        cands.append({'rwvm': True, 'modality': False, 'voi': False, 'invert': False})
+        for m, v, i in itertools.product((False, True), repeat=3):
+            cands.append({'rwvm': False, 'modality': m, 'voi': v, 'invert': i})
+        for c in cands:
+            c.update(palette=False, icc=False)
+    else:
+        for p_, i in itertools.product((False, True) if ctype == PALETTE else (False,), (False, True)):
+            cands.append({'rwvm': False, 'modality': False, 'voi': False, 'invert': False, 'palette': p_, 'icc': i})
+    got = np.asarray(res[1])
+    hits = []
+    T = P['T']
+    for c in cands:
+        if (c['rwvm'] and not T.get('rwvm')) or (c['modality'] and not T.get('rescale')) or (c['voi'] and not T.get('window')) \
+                or (c['invert'] and T.get('pres_shape') != 'INVERSE') or (c['icc'] and not T.get('icc')):
+            continue
+        ref = ref_apply(P, 0, c, {})
+        if ref[0] != 'ok':
+            continue
+        info = ref[2]
+        shape_ok = (got.ndim == 3) == bool(info.get('color_out')) if ctype != MONO else got.ndim == 2
+        if shape_ok and compare_values(got, ref[1], dict(info, kind=[k for k in info['kind'] if k != 'icc']), 'float64') is None:
+            hits.append(c)
+    return hits[0] if len(hits) == 1 else None
+
+
+def stream_flags(ctx, reqs, pending):
+    rows = [(ct, dict(zip(PRES_KEYS, bits))) for ct in (MONO, COLOR, PALETTE)
+            for bits in itertools.product((False, True), repeat=5)]
+    tuples = list(all_flag_tuples())
+    full = ctx.tier == 'thorough' and not ctx.search_mode
+    r = ctx.rng('flags', 0)
+    budget = ctx.n(2500, len(rows) * len(tuples))
+    per_row = len(tuples) if full else max(1, budget // len(rows))
+    for ct, pres in rows:
+        P = flag_image(ct, pres)
+        st = call(build, P)
+        if st[0] == 'err':
+            ctx.note(f'flag image could not be built: {st[2]}')
+            continue
+        im = st[1][0]
+        sel = tuples if full else r.sample(tuples, min(per_row, len(tuples)))
+        for flags in sel:
+            res = call(im.get_frame, 1, **flag_kwargs(flags))
+            case = {'stream': 'flags', 'ctype': ct, 'present': pres, 'flags': flags}
+            ref = check_call(ctx, case, P, 0, flags, {}, res, 'flags', hist=False)
+            spec = 'err' if ref[0] == 'err' else ref[2]['stages']
+            ctx.case(nontrivial_key=('flags', ct, tuple(pres.values()), tuple(flags.values())) if ref[0] == 'ok' else None,
+                     flag_outcome=('refused' if res[0] != 'ok' else 'applied:' + '+'.join(k for k, v in spec.items() if v) if spec != 'err' else 'ok?'),
+                     ctype=ct)
+            obs = observe_stages(P, res)
+            if obs is None:
+                ctx.fail(case, {'why': 'output matches no combination of stages', 'got': np.asarray(res[1]).tolist()}, site='flags/decode')
+                continue
+            reqs.append(('flagOutcome', {'flags': [flags[k] for k in ('rw', 'mod', 'voi', 'pal', 'icc')], 'pres': flags['pres'],
+                                         'ctype': ct, 'present': [pres[k] for k in PRES_KEYS]}))
+            pending.append((case, obs if obs == 'err' else [obs[k] for k in ('rwvm', 'modality', 'voi', 'invert', 'palette', 'icc')]))
+    if full:
+        ctx.exhaustive.append(f'flag table: {len(rows)} (colour type x presence) rows x {len(tuples)} flag tuples = {len(rows) * len(tuples)} cells via get_frame')
